@@ -136,3 +136,85 @@ def held_buffer_mutations(prog: Program, fn) -> List[Tuple[str, str]]:
                     if item not in out:
                         out.append(item)
     return out
+
+
+def unguarded_optional_uses(prog: Program, cls: ClassInfo, attr: str, funcs=None) -> List[Tuple[str, ast.AST]]:
+    """`self.<attr>.<x>` in the methods of `cls` where nothing on the way says self.<attr> is not None: neither the path condition of the
+    statement (an `is not None` / truthiness / isinstance test, an assert, an early return on None) nor the short-circuit operands to its left
+    (`self.a is None or not self.a.alive`, `self.a and self.a.x`, conditional expressions).  A use in a private method of the class is also
+    accepted when every place the class calls (or, for a property, reads) that method is itself so guarded: the helper was cut out of guarded
+    code.  [(function, node)]"""
+    from .facts import atoms, strip
+    from .terms import summarize
+    out = []
+    cache = {}
+
+    def info(f):
+        if f.qual not in cache:
+            par = {}
+            for n in ast.walk(f.node):
+                for c in ast.iter_child_nodes(n):
+                    par[c] = n
+            cache[f.qual] = (summarize(prog, f), par)
+        return cache[f.qual]
+
+    def guarded_at(f, node) -> bool:
+        s, par = info(f)
+        target = ("attr", ("param", f.params[0]), attr)
+
+        def says_nonnull(a) -> bool:
+            a = strip(a)
+            if a == target:
+                return True
+            if a[0] == "cmp" and a[1] in ("is not", "!=") and strip(a[2]) == target and a[3] == ("const", None):
+                return True
+            if a[0] == "call" and a[1] == ("ext", "isinstance") and a[2] and strip(a[2][0]) == target:
+                return True
+            return False
+        # (term, truth) pairs established by short-circuit evaluation on the way from the statement down to `node`
+        facts, x = [], node
+        while x in par and not isinstance(x, ast.stmt):
+            p = par[x]
+            if isinstance(p, ast.BoolOp):
+                i = next(k for k, v in enumerate(p.values) if v is x)
+                for v in p.values[:i]:
+                    t = s.ta.terms_at.get(v)
+                    if t is not None:
+                        facts.append((t, isinstance(p.op, ast.And)))
+            elif isinstance(p, ast.IfExp) and x is not p.test:
+                t = s.ta.terms_at.get(p.test)
+                if t is not None:
+                    facts.append((t, x is p.body))
+            x = p
+        while x is not None and x not in s.ta.env_at:
+            x = par.get(x)
+        pc = tuple(s.ta.env_at[x].pc) if x is not None else ()
+        # a compound statement's own test is evaluated before its body: uses inside the body see it through the body's statements
+        return any(says_nonnull(a) for a in atoms(pc + tuple(facts)))
+
+    methods = [m for m in cls.methods.values() if m.params]
+
+    def callers_guarded(f, depth=0, seen=()) -> bool:
+        if not (f.name.startswith("_") and not f.name.startswith("__")) or depth > 3 or f.qual in seen:
+            return False
+        sites = []
+        for g in methods:
+            recv = g.params[0]
+            for n in ast.walk(g.node):
+                if isinstance(n, ast.Attribute) and n.attr == f.name and isinstance(n.ctx, ast.Load) and isinstance(n.value, ast.Name) and n.value.id == recv:
+                    sites.append((g, n))
+        if not sites:
+            return False
+        return all(guarded_at(g, n) or callers_guarded(g, depth + 1, seen + (f.qual,)) for g, n in sites)
+
+    for f in (funcs if funcs is not None else list(cls.methods.values())):
+        if not f.params:
+            continue
+        recv = f.params[0]
+        uses = [n for n in ast.walk(f.node) if isinstance(n, ast.Attribute) and isinstance(n.ctx, ast.Load) and isinstance(n.value, ast.Attribute)
+                and n.value.attr == attr and isinstance(n.value.value, ast.Name) and n.value.value.id == recv]
+        pending = [u for u in uses if not guarded_at(f, u)]
+        if pending and callers_guarded(f):
+            continue
+        out.extend((f.qual, u) for u in pending)
+    return out
